@@ -256,10 +256,37 @@ def _comparison_table(ctx, model):
            "exactly the six comparison operators" if not extra else
            f"extra operators {extra}")
     # __post_init__ admits exactly those keys
+    # (path rule: a construction path that does not raise has either seen the
+    # operator in the table or has replaced it by a table entry)
     pi = comp.cls.members.get("__post_init__")
-    src = ast.unparse(pi.node).replace(" ", "") if pi else ""
-    ok = "ifself.operatornotinself.operator_to_name:" in src and \
-        "raiseRuntimeError" in src
+    ok = pi is not None and pi.kind == "func"
+    saw_raise = False
+    OPR = ("attr", NODE, "operator")
+
+    def _member(v, pol, table):
+        """does (v, pol) establish  operator in <table> ?"""
+        if not (isinstance(v, tuple) and v[0] == "compare" and v[2] == OPR
+                and len(v[3]) == 1 and v[3][0] == ("attr", NODE, table)):
+            return False
+        return (v[1] == ("In",) and pol) or (v[1] == ("NotIn",) and not pol)
+
+    if ok:
+        for ps in summarize(pi.node, self_is_node=True, loop_mode="1"):
+            if ps.term == "raise":
+                saw_raise = True
+                continue
+            in_table = any(_member(v, pol, "operator_to_name")
+                           for _, pol, v in ps.conds)
+            translated = any(
+                _member(v, pol, "name_to_operator") for _, pol, v in ps.conds) \
+                and any(e.kind == "call" and e.name == "object.__setattr__"
+                        and len(e.args) == 3 and e.args[1] == ("const", "operator")
+                        and e.args[2] == ("index", ("attr", NODE,
+                                                    "name_to_operator"), None, OPR)
+                        for e in ps.events)
+            if not (in_table or translated):
+                ok = False
+        ok = ok and saw_raise
     ctx.ob("T/Comparison/operators-validated", ok, comp.cls.loc(),
            "an operator outside the table is rejected at construction" if ok else
            "Comparison no longer rejects operators outside operator_to_name")
@@ -382,12 +409,14 @@ def _variants(ctx, model):
            "CachedMapper" if ok else
            "CachedEvaluationMapper defines handlers of its own or does not "
            "dispatch through CachedMapper")
-    init = cev.members.get("__init__")
-    src = ast.unparse(init.node) if init else ""
-    ok = "CachedMapper.__init__(self)" in src and \
-        "EvaluationMapper.__init__(self, context=context)" in src
+    from ..rules import init_effects
+    eff = init_effects(model, cev)
+    ok = "_cache" in eff and eff.get("context") == ("param", "context")
     ctx.ob("S/CachedEvaluationMapper/init", ok, cev.loc(),
-           "cache and context are both initialised")
+           "cache and context are both initialised" if ok else
+           "constructing a CachedEvaluationMapper establishes "
+           f"{ {k: v for k, v in eff.items()} }: it needs the cache of "
+           "CachedMapper and 'context' bound to the constructor argument")
     for fname in ("evaluate", "evaluate_kw", "evaluate_to_float"):
         m, fn = model.func(f"{EV}:{fname}")
         r = [x for x in ast.walk(fn) if isinstance(x, ast.Return)]
@@ -398,7 +427,7 @@ def _variants(ctx, model):
                f"{fname} does not apply mapper_cls(context) to the expression")
     # cached and uncached agree: the look-aside of the memoizing evaluator
     from .c05 import _cache_key, check_lookaside
-    _cache_key(ctx, model)
+    _cache_key(ctx, model, scope=[cev])
     check_lookaside(ctx, model)
     # the mix-in must win in both
     for c in (ev, cev):
